@@ -149,12 +149,12 @@ def eval_bd(req, H, K, N, p, newH, Ms, W=None, stats=None, nv=None):
     KN = K * N
     newH, Ms = np.asarray(newH), np.asarray(Ms)
     if Ms.shape != (KN, KN) or newH.shape != (KN, KN):
-        return [f"shapes of (newH, Ms) are {newH.shape}, {Ms.shape}, expected {(KN, KN)}"]
+        return [f"Malformed: shapes of (newH, Ms) are {newH.shape}, {Ms.shape}, expected {(KN, KN)}"]
     if not (np.all(np.isfinite(Ms)) and np.all(np.isfinite(newH))):
-        return ["non-finite values in (newH, Ms)"]
+        return ["Malformed: non-finite values in (newH, Ms)"]
     E = H.dot(Ms)
     if "ReturnedChannelIsChannelTimesPrecoder" in req and fro(newH - E) > 1e-9 * max(1e-300, fro(H) * fro(Ms)):
-        bad.append("returned newH is not H * Ms")
+        bad.append("ReturnedChannelIsChannelTimesPrecoder: returned newH is not H * Ms")
     if "EffectiveChannelBlockDiagonal" in req:
         mask = np.kron(np.eye(K), np.ones((N, N)))
         off = fro(E * (1 - mask))
@@ -192,7 +192,7 @@ def eval_bd(req, H, K, N, p, newH, Ms, W=None, stats=None, nv=None):
     if "ReceiveFilterInvertsOnPoweredStreams" in req and W is not None:
         W = np.asarray(W)
         if W.shape != (KN, KN):
-            bad.append(f"receive filter shape {W.shape}")
+            bad.append(f"ReceiveFilterInvertsOnPoweredStreams: receive filter shape {W.shape}")
         else:
             powered = cp > POWERED * p
             zero = cp == 0
@@ -215,15 +215,15 @@ def eval_ext(req, M, K, N, rE, p, lastrec, Ms, Wk, Ns, stats=None):
     H, He = M[:, :KN], M[:, KN:]
     try:
         if len(Ms) != K or len(Wk) != K or len(Ns) != K:
-            return [f"lengths of the returned arrays {len(Ms)}, {len(Wk)}, {len(Ns)} != K = {K}"]
+            return [f"Malformed: lengths of the returned arrays {len(Ms)}, {len(Wk)}, {len(Ns)} != K = {K}"]
         ns = [int(x) for x in Ns]
         Ms = [np.asarray(x) for x in Ms]
         Wk = [np.asarray(x) for x in Wk]
     except Exception as ex:
-        return [f"malformed return value: {type(ex).__name__}: {ex}"]
+        return [f"Malformed: return value: {type(ex).__name__}: {ex}"]
     for k in range(K):
         if Ms[k].ndim != 2 or Ms[k].shape[0] != KN or not np.all(np.isfinite(Ms[k])) or not np.all(np.isfinite(Wk[k])):
-            return [f"precoder of user {k} has shape {Ms[k].shape} / non-finite entries"]
+            return [f"Malformed: precoder of user {k} has shape {Ms[k].shape} / non-finite entries"]
     if "StreamCountsMatchPrecoders" in req:
         for k in range(K):
             if Ms[k].shape[1] != ns[k] or Wk[k].shape != (ns[k], N):
@@ -271,18 +271,23 @@ def eval_whitening(req, M, K, N, rE, pe, nv, Wall):
     if "WhiteningFiltersWhitenExtIntPlusNoise" not in req:
         return bad
     if len(Wall) != K:
-        return [f"{len(Wall)} whitening filters for {K} users"]
+        return [f"WhiteningFiltersWhitenExtIntPlusNoise: {len(Wall)} whitening filters for {K} users"]
     for k in range(K):
         Hek = M[k * N:(k + 1) * N, KN:]
         R = pe * Hek.dot(Hek.conj().T) + nv * np.eye(N)
         W = np.asarray(Wall[k])
         if W.shape != (N, N) or not np.all(np.isfinite(W)):
-            bad.append(f"whitening filter of user {k} has shape {W.shape} / non-finite entries")
+            bad.append(f"WhiteningFiltersWhitenExtIntPlusNoise: whitening filter of user {k} has shape {W.shape} / non-finite entries")
             continue
         C = W.dot(R).dot(W.conj().T)
         if not np.allclose(C, np.eye(N), atol=TOL_ID, rtol=0):
             bad.append(f"WhiteningFiltersWhitenExtIntPlusNoise: W_k R_k W_k^H of user {k} deviates {np.abs(C - np.eye(N)).max():.3e} from I")
     return bad
+
+
+def failed_predicates(msgs):
+    """every discrepancy text starts with the name of the predicate it refutes (or 'Malformed')"""
+    return {m.split(":", 1)[0] for m in msgs}
 
 
 def same_result(a, b):
@@ -349,11 +354,11 @@ class Driver:
         if self.ch is not None:
             ch = self.ch
             if list(ch.Nr) != [N] * K or list(ch.Nt) != [N] * K or ch.K != K:
-                bad.append(f"the channel object now reports Nr={list(ch.Nr)} Nt={list(ch.Nt)} K={ch.K} (was {N} per user, K={K})")
+                bad.append(f"InputsUntouched: the channel object now reports Nr={list(ch.Nr)} Nt={list(ch.Nt)} K={ch.K} (was {N} per user, K={K})")
             elif ch.noise_var != self.cfg["nv"]:
-                bad.append("the noise variance of the channel object changed")
+                bad.append("InputsUntouched: the noise variance of the channel object changed")
             elif np.asarray(ch.big_H).shape != self.M.shape or not np.array_equal(ch.big_H, self.M):
-                bad.append("the channel matrix of the channel object changed")
+                bad.append("InputsUntouched: the channel matrix of the channel object changed")
         return bad
 
     def solve_ext(self, o, ch):
@@ -448,7 +453,7 @@ class Driver:
             bad += [(None, b) for b in eval_bd(req, H, K, N, c["p"], newH, Ms, stats=self.stats, nv=c["nv"])]
             if "InputsUntouched" in req:
                 if not np.array_equal(Harg, H):
-                    bad.append((None, "the channel matrix handed to the solve was modified"))
+                    bad.append((None, "InputsUntouched: the channel matrix handed to the solve was modified"))
                 bad += [(None, b) for b in self.channel_untouched()]
             if "SameAsFreshObject" in req and not bad:
                 ref = self.solve_bd(self.fresh(post["metric"]), a["op"], np.array(H))
@@ -487,7 +492,7 @@ class Driver:
             except Exception as ex:
                 return [(None, f"calc_receive_filter raised {type(ex).__name__}: {ex}")]
             if not np.array_equal(arg, newH):
-                bad.append((None, "calc_receive_filter modified its argument"))
+                bad.append((None, "InputsUntouched: calc_receive_filter modified its argument"))
             bad += [(None, b) for b in eval_bd(req, Hres, Kr, Nr_, c["p"], newH, Ms, W=W, stats=self.stats, nv=c["nv"])]
         elif op == "Scribble":
             _, Ms, Wk, Ns = self.res
@@ -505,7 +510,7 @@ class Driver:
             raise ValueError(op)
         after = self.public_state(o)
         if after != before:
-            bad.append((None, f"{op} changed the configuration of the object from {before} to {after}"))
+            bad.append((None, f"InputsUntouched: {op} changed the configuration of the object from {before} to {after}"))
         return bad
 
 
@@ -617,6 +622,8 @@ def instances(tier):
                     {"extras": True}, {"walks": 1500, "walk_len": 14, "max_len": 14}))
         res.append(("history:EBD:K3", (["EBD"], [3], [1, 2], [1, 2], ["lo"], ["hi"], ["lo"], [1, 2], ["PSK4"], [60, 120]),
                     {"extras": True}, {"walks": 1500, "walk_len": 14, "max_len": 14}))
+        res.append(("history:EBD:K3b", (["EBD"], [3], [2, 3], [1, 2], ["mid"], ["mid"], ["hi"], [1, 2, 3], ["QAM16"], [120]),
+                    {}, {"walks": 1500, "walk_len": 14, "max_len": 14}))
         res.append(("history:EBD:K4pe0", (["EBD"], [4], [2, 3], [1], ["mid"], ["mid"], ["zero"], [1, 2], ["PSK4"], [120]),
                     {}, {"walks": 800, "walk_len": 14, "max_len": 14}))
     else:
@@ -668,10 +675,16 @@ def run(ctx):
         if num.get("extint_users_checked", 0) == 0:
             raise tlc.TlcError("the external-interference removal predicate was never evaluated")
     ctx.exhaustive = True
+    # stage T: recorded random configurations / call sequences validated by TLC (Trace_BlockDiag.tla)
+    from . import c09_trace
+    c09_trace.run(ctx)
 
 
 def replay(ctx, data):
     c = data["case"]
+    if c.get("kind") == "trace":
+        from . import c09_trace
+        return c09_trace.replay(ctx, c)
     ctx.ok()
     okc, v, st, rd = run_path((c["path"], c["seed"], None))
     if v:
